@@ -122,6 +122,10 @@ impl Property for C16 {
             LibResult::Err(k, d) => return Outcome::skip(format!("not accepted: {k:?} {d}")),
         };
         let mut o = Outcome::default();
+        // rustc normalises CR LF to LF when it loads a source file - also inside (raw) string literals - and rejects a bare CR in a raw
+        // string: evaluate SOURCE on the text as rustc sees it (the library's escaped literal has no raw line ends, so this is the
+        // identity on the unchanged tree)
+        let text = text.replace("\r\n", "\n");
         let items = match outline(&text) {
             Ok(i) => i,
             Err(e) => {
